@@ -50,6 +50,7 @@ import (
 	"io"
 	"iter"
 	"regexp/syntax"
+	"strconv"
 	"strings"
 	"unicode"
 	"unicode/utf8"
@@ -122,6 +123,15 @@ func Compile(pattern string) (*Regex, error) {
 	}, nil
 }
 
+// quote returns the pattern quoted for a panic message: back-quoted when that
+// is unambiguous, as a Go string literal otherwise.
+func quote(s string) string {
+	if strconv.CanBackquote(s) {
+		return "`" + s + "`"
+	}
+	return strconv.Quote(s)
+}
+
 // MustCompile compiles a regular expression pattern and panics if it fails.
 //
 // This is useful for patterns known to be valid at compile time.
@@ -132,7 +142,7 @@ func Compile(pattern string) (*Regex, error) {
 func MustCompile(pattern string) *Regex {
 	re, err := Compile(pattern)
 	if err != nil {
-		panic("regexp: Compile(`" + pattern + "`): " + err.Error())
+		panic(`regexp: Compile(` + quote(pattern) + `): ` + err.Error())
 	}
 	return re
 }
@@ -162,7 +172,7 @@ func CompilePOSIX(pattern string) (*Regex, error) {
 func MustCompilePOSIX(pattern string) *Regex {
 	re, err := CompilePOSIX(pattern)
 	if err != nil {
-		panic("regexp: CompilePOSIX(`" + pattern + "`): " + err.Error())
+		panic(`regexp: CompilePOSIX(` + quote(pattern) + `): ` + err.Error())
 	}
 	return re
 }
